@@ -80,6 +80,11 @@ func cmdDNSPool(args []string) error {
 	net(func(r *aRule) { r.White = true; r.DocOpts = []string{"elemhide", "jsinject", "urlblock", "content", "extension"} })
 	net(func(r *aRule) { r.PermTypes = []string{"script"}; r.RestTypes = []string{"image"} })
 	net(func(r *aRule) { r.RestTypes = []string{"image"} }) // one-sided content-type list: still DNS-applicable
+	// browser-only modifiers next to $important / $badfilter: still not DNS-applicable
+	net(func(r *aRule) { r.Important = true; r.Mcase = "on" })
+	net(func(r *aRule) { r.White, r.Important = true, true; r.DocOpts = []string{"elemhide"} })
+	net(func(r *aRule) { r.Badfilter = true; r.Third = "on" })
+	net(func(r *aRule) { r.Important = true; r.Misc = []string{"popup"} })
 	rr := rand.New(rand.NewSource(1))
 	for i := range pool.Entries {
 		e := &pool.Entries[i]
